@@ -29,6 +29,7 @@ def sweep(path_filter, only=None):
                 continue
             r = exttie.run(wt)
             broken = sorted(k for k, v in r["theorems"].items() if not v["ok"])
+            roots = sorted(k for k in broken if not r["theorems"][k].get("depends_on_broken"))
             left = sorted(base_th - set(r["theorems"]))
             why = {}
             for u, rep in r["report"].items():
@@ -38,7 +39,7 @@ def sweep(path_filter, only=None):
                 if rep.get("error"):
                     why[u] = rep["error"]
             touched = sorted({l[4:].split("(")[0].strip() for l in open(patch) if l.startswith("@@")})
-            rows.append(dict(id=pid, kind="refactor" if "/refactors/" in d else "seeded", broken=broken, left_fragment=left, why=why,
+            rows.append(dict(id=pid, kind="refactor" if "/refactors/" in d else "seeded", broken=broken, roots=roots, left_fragment=left, why=why,
                              errors={k: (r["theorems"][k]["error"] or "")[:160] for k in broken},
                              unchanged=not broken and not left, key=r["key"], same_text=r["key"] == base["key"]))
         finally:
